@@ -92,8 +92,8 @@ func init() {
 		Explanation: "Structural necessary conditions on package annotate's child-first ordering, decided on every path of a path-sensitive exploration of the DFS, the constructor, the producer goroutine, Next and Close. Each of these functions is explored together with everything it statically calls inside the module (parameters bound to arguments, results bound back), with a finite abstract store (booleans; nil/non-nil; pure local comparisons) that decides branches where it can; values are compared as canonical terms that look through locals with a unique reaching definition, followed parameters, results of followed calls (path-sensitively: the one return statement that can have produced the value seen at a point, so `(value, ok, err)` triples and `(cut, err)` results are transparent), struct-valued results and locals field by field (`outcome{cut: true}`), named results with bare returns, callbacks passed as function literals (a literal that is only called by followed code is part of the explored paths, so a flag or result variable it captures and assigns is tracked like a local of a loop body), small integer constants (flags turned into enums) and zero / non-zero ids, conversions, aliases and named constants; loops may be range loops or counting loops in either direction (`i := len(X)-1; i >= 0; i--`, `i := len(X); i > 0; i--` with X[i-1], `i, n := 0, len(X)`), scans may live in methods of a named path type; what the producer defers may be a method or closure that closes the channel and releases the wait group, Close may defer its Wait; the ordering's state may be grouped into struct types of the package (a context/cancel pair, a set type with methods around the map). The rules are therefore independent of how the code is cut into helpers, of if/switch/early-return shape, of temporaries and of names. Decided: " +
 			"(W1) every send on the output channel in the package is the DFS's emission of its own (never reassigned) id parameter, no second emission and no recursive call is reachable after an emission, and the emission is unreachable from the entry unless the outermost loop around the recursion is exhausted (post-order); " +
 			"(W2) every path to the emission takes the not-yet-visited edge of a membership test on the id and passes the store of the id into the visited set (or the store lies on every path after the emission); between a store and the emission attempt there is no recursion and no return; the set is only added to, and only by the DFS; every function taking part in the DFS or the producer loop is called only from the DFS and from the single producer goroutine; the explored functions contain no defer/go/recursion the exploration does not model; the producer loop evaluates the DFS for every element of the complete request list and leaves the loop unless the result is known to be nil; " +
-			"(W3) each recursive call extends the path with the id it enters and is reached only through the exhaustion edge of a complete scan of the path that compares every element with that id; a match leaves the DFS without recursing or emitting (path elements stay distinct, so depth <= number of distinct ids + 1; an inner activation of an id that is being walked higher up never reaches the emission, so cycles do not emit twice); the root call's path is empty; a non-nil child result, and a non-nil history error, end the activation with a non-nil error; a not-found history ends it with nil before any recursion or emission; " +
-			"(W4) the ordering's context and cancel fields hold the two results of context.WithCancel applied to the constructor's context parameter; the send is a select case next to that context's Done, whose case leaves the DFS with a non-nil result; Next receives in a select with Done (or relies on the producer's deferred close) and returns false unless the received value was found valid; Close cancels on every path to the wait and waits on every path, where the completion carrier is a sync.WaitGroup (Add(1) / Done / Wait) or a channel the producer closes and Close receives from (make / close / plain receive): the carrier is armed before the single go statement, the producer defers close(out) and the completion signal before its first way out, the signal is the producer's last action (registered before the close of the output channel), nobody else signals, and the output channel is closed nowhere else; " +
+			"(W3) each recursive call extends the path with the id it enters and is reached only through the exhaustion edge of a complete scan of the path that compares every element with that id; a match leaves the DFS without recursing or emitting (path elements stay distinct, so depth <= number of distinct ids + 1; an inner activation of an id that is being walked higher up never reaches the emission, so cycles do not emit twice); the path parameter is only ever replaced by a slice with the same length and elements (capacity grown by re-slice / append-copy / make+copy); the root call's path is empty; a non-nil child result, and a non-nil history error, end the activation with a non-nil error; a not-found history ends it with nil before any recursion or emission; " +
+			"(W4) the ordering's context and cancel fields hold the two results of context.WithCancel applied to the constructor's context parameter; the send is a select case next to that context's Done (spelled directly, through a local, or through a field that only ever holds Done() of the stored context and is set before the producer starts), whose case leaves the DFS with a non-nil result; Next receives in a select with Done (or relies on the producer's deferred close) and returns false unless the received value was found valid; Close cancels on every path to the wait and waits on every path, where the completion carrier is a sync.WaitGroup (Add(1) / Done / Wait) or a channel the producer closes and Close receives from (make / close / plain receive): the carrier is armed before the single go statement, the producer defers close(out) and the completion signal before its first way out, the signal is the producer's last action (registered before the close of the output channel), nobody else signals, and the output channel is closed nowhere else; " +
 			"(W5) the recursion sits in a loop over the complete history nested around a loop over the complete Members of each version (range or counting loops, left only by exhaustion or return), walks the member's Ref, is reached only through the is-a-relation edge of a test of the member's Type against osm.TypeRelation, and — guard whitelist — no other condition between the start of a version's iteration and the recursive call decides whether the call is reached, except the member-type test and the already-visited test on the member (which may only skip the member, not end the walk) and the cycle cut; " +
 			"(W6) every way out of the DFS before the emission is explained by one of: already visited (nil), history not found, non-nil error, cycle cut (nil), cancellation, Done case of the emission select; an unexplained way out with a nil result (a depth or size cut-off, a member reported as \"cut\" for another reason) is a violation: the caller takes the id for done and emits the parent first. " +
 			"(W7) every way out of the DFS that can follow a recursive call and lets the iteration go on (nil result; not a cancellation) passes a store of the id into the set whose membership test on entry guards all walking (memo: no relation is walked twice) and a test of the ordering's context made by the walk itself (cancel-latency). On the pinned tree the cycle-cut `return nil` does neither — relations on a cycle are re-walked from every parent, exponentially on ladders of cycles — which is recorded as a known finding (memo@dfs cycle-cut, cancel-latency@dfs cycle-cut); any other such way out fails. " +
